@@ -14,7 +14,8 @@ chain extracted from the header (`size_fits`, `size_type_minimal_partial`), `rem
 modelled (`eraseIf_refines` for every element kind), and what a moved-from object holds is stated by `moved_from_…`.
 Arguments that refer to an element of the vector itself (`v.insert(pos, v[i])` …) are operations of the model language,
 read through the reference when the code reads them (`insert_alias_eq`, `insertFill_alias_eq`, `push_alias_eq`,
-`resize_alias_eq`, `ipv_push_alias_eq`, `alias_spec`); the relational operators are modelled through the element's `<` alone /
+`resize_alias_eq`, `ipv_push_alias_eq`, `alias_spec`); rvalue arguments whose state the caller sees afterwards are slots of
+the model (`tryPush_full_keeps_argument`, `rvalue_argument_moved_iff_constructed`); the relational operators are modelled through the element's `<` alone /
 `==` alone and proved against `operator==` + `operator<=>` for any asymmetric `lt` and any `eq` (`relOps_refines`).
 inplace_vector: only
 the members etl::inplace_vector has (`supports .ipv`); the rest of std::inplace_vector's interface is the known
@@ -318,6 +319,107 @@ theorem tryPush_full (cap : Nat) (d : V) (x : Nat) (hf : d.length = cap) : ipvTr
 example : ipvTry 2 [4, 5] 9 = .ok ([4, 5], none) := by decide
 example : ipvTry 0 [] 9 = .ok ([], none) := by decide
 
+/-! ## rvalue arguments the caller still owns
+
+`T t(x); v.push_back(std::move(t));` — after the call `t` is moved from exactly when an element has been constructed
+from it, and untouched otherwise.  For the members that always construct (`push_back`, `emplace_back`, `insert(pos, T&&)`,
+`emplace`, `unchecked_*`; `stack::push` / `emplace`) that is "always, under the documented precondition"; for
+`try_push_back(T&&)` / `try_emplace_back` on a full inplace_vector (every `inplace_vector<T, 0>`) it is the
+"changes nothing" of the property: [inplace.vector.modifiers] "Otherwise, there are no effects".  The argument is a slot
+of the model (Model.lean: `pushBackRv`, `emplaceBackRv`, `insertRvArg`, `emplaceRvArg`, `ipvTryRv`, `ipvUncheckedRv`); the
+operations (`Op.pushMv`, `insertMv`, `tryPushMv`, `uncheckedMv`) are part of `step_refines` / `history_refines`, whose
+"returns the spec's result" includes the state of the argument (`Out.unitArg` … `Out.refArg`). -/
+
+/-- **`try_push_back(T&&)` / `try_emplace_back(T&&)` on a full inplace_vector return null and change nothing — not the
+    vector and not the argument** (all capacities, 0 included: there every vector is full) -/
+theorem tryPush_full_keeps_argument (cap : Nat) (d : V) (x : Nat) (hf : d.length = cap) :
+    ipvTryRv cap d x = .ok (d, none, false)
+      ∧ ∀ ov, step1Ipv cap (.tryPushMv ov x) d = .ok (d, .ptrArg none false) := by
+  have h : ipvTryRv cap d x = .ok (d, none, false) := by unfold ipvTryRv; simp [hf]
+  exact ⟨h, fun ov => by simp [step1Ipv, h]⟩
+
+example : ipvTryRv 2 [4, 5] 9 = .ok ([4, 5], none, false) := by decide
+example : ipvTryRv 0 [] 9 = .ok ([], none, false) := by decide
+example : step1Ipv 0 (.tryPushMv 1 9) [] = .ok ([], .ptrArg none false) := by decide
+
+/-- with room the element is constructed from the argument: appended, pointer to it, argument moved from -/
+theorem tryPush_room_consumes_argument (cap : Nat) (d : V) (x : Nat) (hc : cap < 2 ^ 64) (h : d.length < cap) :
+    ipvTryRv cap d x = .ok (d ++ [x], some x, true) := by
+  rw [ipvTryRv_eq d x hc (by omega), if_neg (by omega)]
+
+example : ipvTryRv 3 [4, 5] 9 = .ok ([4, 5, 9], some 9, true) := by decide
+
+/-- **An rvalue argument is moved from iff an element has been constructed from it.**  For every member taking `T&&`
+    (or forwarding an rvalue) of static_vector / stack (`step1`) and inplace_vector (`step1Ipv`), every capacity, element
+    kind and content, under the documented precondition: the call succeeds, reports the state of the argument, that state
+    is "moved from" exactly when the vector has grown by one element, "untouched" only if the vector is unchanged, and
+    result and argument state are those of the spec. -/
+theorem rvalue_argument_moved_iff_constructed (cap : Nat) (kind : Kind) (op : Op) (d : V) (hc : cap < 2 ^ 64)
+    (hcap : d.length ≤ cap) (hr : takesRvalue op = true) (hv : valid1 cap op d = true) :
+    ∃ d' o m, (if unaryIpv op then step1Ipv cap op d else step1 cap kind op d) = .ok (d', o) ∧ o.moved? = some m
+      ∧ (m = true ↔ d'.length = d.length + 1) ∧ (m = false → d' = d) ∧ (d', o) = Spec.apply1 cap op d := by
+  cases op <;> simp only [takesRvalue] at hr <;> try contradiction
+  case pushMv ov x =>
+    have h := (step1_refines kind (.pushMv ov x) d hc hcap rfl hv).1
+    refine ⟨(Spec.apply1 cap (.pushMv ov x) d).1, (Spec.apply1 cap (.pushMv ov x) d).2, true, ?_, ?_, ?_, ?_, rfl⟩
+    · simp only [unaryIpv]; exact h
+    · simp [Spec.apply1, Out.moved?]
+    · simp [Spec.apply1]
+    · simp
+  case insertMv ov pos x =>
+    have h := (step1_refines kind (.insertMv ov pos x) d hc hcap rfl hv).1
+    simp only [valid1, Bool.and_eq_true, decide_eq_true_eq] at hv
+    refine ⟨(Spec.apply1 cap (.insertMv ov pos x) d).1, (Spec.apply1 cap (.insertMv ov pos x) d).2, true, ?_, ?_, ?_, ?_, rfl⟩
+    · simp only [unaryIpv]; exact h
+    · simp [Spec.apply1, Out.moved?]
+    · simp [Spec.apply1, insertAt_length d pos [x] hv.2]
+    · simp
+  case tryPushMv ov x =>
+    have h := (step1Ipv_refines (.tryPushMv ov x) d hc hcap rfl hv).1
+    by_cases hf : d.length = cap
+    · refine ⟨(Spec.apply1 cap (.tryPushMv ov x) d).1, (Spec.apply1 cap (.tryPushMv ov x) d).2, false, ?_, ?_, ?_, ?_, rfl⟩
+      · simp only [unaryIpv]; exact h
+      · simp [Spec.apply1, hf, Out.moved?]
+      · simp [Spec.apply1, hf]
+      · simp [Spec.apply1, hf]
+    · refine ⟨(Spec.apply1 cap (.tryPushMv ov x) d).1, (Spec.apply1 cap (.tryPushMv ov x) d).2, true, ?_, ?_, ?_, ?_, rfl⟩
+      · simp only [unaryIpv]; exact h
+      · simp [Spec.apply1, hf, Out.moved?]
+      · simp [Spec.apply1, hf]
+      · simp
+  case uncheckedMv ov x =>
+    have h := (step1Ipv_refines (.uncheckedMv ov x) d hc hcap rfl hv).1
+    refine ⟨(Spec.apply1 cap (.uncheckedMv ov x) d).1, (Spec.apply1 cap (.uncheckedMv ov x) d).2, true, ?_, ?_, ?_, ?_, rfl⟩
+    · simp only [unaryIpv]; exact h
+    · simp [Spec.apply1, Out.moved?]
+    · simp [Spec.apply1]
+    · simp
+
+example : takesRvalue (.insertMv 1 1 7) = true ∧ valid1 4 (.insertMv 1 1 7) [5, 6] = true
+    ∧ step1 4 .hd (.insertMv 1 1 7) [5, 6] = .ok ([5, 7, 6], .itArg 1 true) := by decide
+example : takesRvalue (.tryPushMv 3 7) = true ∧ valid1 2 (.tryPushMv 3 7) [5, 6] = true
+    ∧ step1Ipv 2 (.tryPushMv 3 7) [5, 6] = .ok ([5, 6], .ptrArg none false) := by decide
+
+/-- the slot members do to the vector exactly what the plain members do, failures included (no hypotheses): the
+    argument state is an additional observation, not another behaviour -/
+theorem rvalue_members_generalise (cap : Nat) (d : V) (pos x : Nat) :
+    (pushBackRv cap d x).map (·.1) = pushBack cap d x ∧ (emplaceBackRv cap d x).map (·.1) = emplaceBack cap d x
+      ∧ (insertRvArg cap d pos x).map (·.1) = insertRv cap d pos x ∧ (emplaceRvArg cap d pos x).map (·.1) = insertRv cap d pos x
+      ∧ (ipvTryRv cap d x).map (fun r => (r.1, r.2.1)) = ipvTry cap d x
+      ∧ (ipvUncheckedRv cap d x).map (fun r => (r.1, r.2.1)) = ipvUnchecked cap d x :=
+  ⟨pushBackRv_fst cap d x, emplaceBackRv_fst cap d x, insertRvArg_fst cap d pos x, emplaceRvArg_fst cap d pos x,
+   ipvTryRv_fst cap d x, ipvUncheckedRv_fst cap d x⟩
+
+/-- which type has which of them: static_vector `push_back` / `emplace_back` / `insert` / `emplace`, stack `push` /
+    `emplace`, inplace_vector `try_*` / `unchecked_*` (its `push_back` / `insert` are part of the known finding
+    F-C01-inplace-vector-missing-members) -/
+theorem rvalue_members_present :
+    (∀ ov x, supports .sv (.pushMv ov x) = true) ∧ (∀ ov p x, supports .sv (.insertMv ov p x) = true)
+      ∧ (∀ ov x, supports .stk (.pushMv ov x) = true) ∧ (∀ ov p x, supports .stk (.insertMv ov p x) = false)
+      ∧ (∀ ov x, supports .ipv (.tryPushMv ov x) = true) ∧ (∀ ov x, supports .ipv (.uncheckedMv ov x) = true)
+      ∧ (∀ ov x, supports .ipv (.pushMv ov x) = false) ∧ (∀ ov p x, supports .ipv (.insertMv ov p x) = false) := by
+  refine ⟨?_, ?_, ?_, ?_, ?_, ?_, ?_, ?_⟩ <;> intros <;> rfl
+
 /-! ## one step and whole histories -/
 
 /-- **Every valid operation refines the spec.**  In a system that satisfies the invariant
@@ -455,6 +557,12 @@ example : Spec.validHist .ipv (Spec.SSys.init 3) [(0, .tryPush 0 5), (0, .tryPus
   decide
 example : Spec.validHist .stk (Spec.SSys.init 3 .kp) [(0, .push 0 4), (0, .pushTop 0), (1, .push 0 5), (0, .cmp 1)] = true := by
   decide
+-- histories with rvalue arguments the caller looks at afterwards; a try_push_back on the full vector is a valid step
+example : Spec.validHist .ipv (Spec.SSys.init 1 .nt) [(0, .tryPushMv 1 5), (0, .tryPushMv 1 6), (0, .tryPushMv 3 7), (0, .pop),
+     (0, .uncheckedMv 1 8)] = true := by decide
+example : (Spec.run (Spec.SSys.init 1 .nt) [(0, .tryPushMv 1 5), (0, .tryPushMv 1 6)]).2
+    = [some (.ptrArg (some 5) true), some (.ptrArg none false)] := by decide
+example : Spec.validHist .sv (Spec.SSys.init 3 .hd) [(0, .pushMv 1 5), (0, .insertMv 3 0 6), (0, .insertMv 1 2 7)] = true := by decide
 -- a moved-from object has no specified size: `pop` on it is not a valid step by the standard's book-keeping
 -- (test on one sample), although the model state knows what etl left there
 example : Spec.validHist .sv (Spec.SSys.init 3) [(0, .push 0 1), (1, .moveCtor 0), (0, .pop)] = false := by decide
